@@ -3667,7 +3667,7 @@ func (m *Machine) Go(ctx context.Context, fn func()) {
 			caller = funcName(fn)
 		}
 
-		if ctx.Err() != nil {
+		if ctx != nil && ctx.Err() != nil {
 			return // expired
 		}
 		defer m.PanicToErr(Pass(AException{
@@ -3694,11 +3694,11 @@ func funcName(fn func()) string {
 // GoAfter is like [Go], but with a delay.
 func (m *Machine) GoAfter(ctx context.Context, delay time.Duration, fn func()) {
 	go func() {
-		if ctx.Err() != nil {
+		if ctx != nil && ctx.Err() != nil {
 			return // expired
 		}
 		time.Sleep(delay)
-		if ctx.Err() != nil {
+		if ctx != nil && ctx.Err() != nil {
 			return // expired
 		}
 		defer m.PanicToErr(nil)
